@@ -40,7 +40,20 @@ def build(fl, k, p, h):
 
 
 def reconfigure(term, k, p, h):
-    """the same parameters given to a long-lived object through configure() (repr keeps the doubles exact)"""
+    """the same parameters given to a long-lived object: alternately through configure() (repr keeps the doubles exact) and by
+    plain assignment to its public attributes (a value cached at first use must not survive either)"""
+    from .fll import ATTRS
+
+    n = term.__dict__.get("_verif_uses", 0) + 1
+    term.__dict__["_verif_uses"] = n
+    if n % 2 and k in ATTRS and k != "Constant":
+        for a, v in zip(ATTRS[k], p):
+            setattr(term, a, float(v))
+        term.height = float(h)
+        return
+    if n % 2 and k == "Constant":
+        term.value = float(p[0])
+        return
     if k == "Constant":
         term.configure(repr(p[0]))
     else:
